@@ -913,6 +913,9 @@ def layout_job(cases):
 
 # --- round-3 stream (worker) --------------------------------------------------------------------
 
+WMEM_DEPTH = 3
+
+
 def r3_build_top(case, env):
     """the shape object: a Struct/Union class declaring the case's field defaults, or the plain layout"""
     from amaranth.lib import data
@@ -1036,15 +1039,16 @@ def r3_observe(case):
             return v
         return shape.from_bits(v)
 
-    def script_sets(s):
+    def script_sets(s, root=None):
+        root = sig if root is None else root
         if s["what"] == "slice":
-            arr = follow(sig, s["path"])
+            arr = follow(root, s["path"])
             target = arr[slice(*s["key"])]
             eshape = arr.shape().elem_shape
             return [(target, [field_value(eshape, fs, v) for _p, fs, v in s["steps"]])]
         out = []
         for p, fs, v in s["steps"]:
-            fld = follow(sig, p)
+            fld = follow(root, p)
             out.append((fld, field_value(fld.shape() if fs[0] not in ("p", "enum") else None, fs, v)))
         return out
 
@@ -1082,6 +1086,17 @@ def r3_observe(case):
         except Exception as e:
             mems.append(("error", errkind(e), repr(e)[:160]))
     obs["mems"] = [mm[:1] + mm[3:] if mm[0] == "ok" else mm for mm in mems]
+    # round 4: a memory whose rows the scripts write into, field by field (ctx.set(mem.data[i].f, v))
+    wmem = wrd = None
+    if case["scripts"]:
+        try:
+            wmem = Memory(shape=obj, depth=WMEM_DEPTH, init=[])
+            wrd = wmem.read_port(domain="comb")
+            m.submodules["wmem"] = wmem
+            obs["wmem"] = ("ok",)
+        except Exception as e:
+            wmem = None
+            obs["wmem"] = ("error", errkind(e), repr(e)[:160])
     res = {"time0": [], "after_reset": [], "enum0": [], "scripts": [], "memrows": []}
     mask = (1 << size) - 1
 
@@ -1132,6 +1147,32 @@ def r3_observe(case):
                             r[how] = cmd.get("result", ("error", "other:not-run", ""))
                             continue
                     r[how] = ("ok", ctx.get(Value.cast(sig)))
+                except Exception as e:
+                    r[how] = ("error", errkind(e), repr(e)[:160])
+            # round 4: the same writes through the view of a memory row holding the same bits (the other rows hold the
+            # complement); afterwards the row (directly, through a comb read port, field by field) and the other rows
+            si = len(res["scripts"])
+            for how in ("mtb", "mproc") if wmem is not None else ():
+                try:
+                    tr = si % WMEM_DEPTH
+                    rowv = wmem.data[tr]
+                    sets = script_sets(s, rowv)
+                    for j in range(WMEM_DEPTH):
+                        ctx.set(Value.cast(wmem.data[j]), s["raw"] if j == tr else ~s["raw"] & mask)
+                    if how == "mtb":
+                        for target, value in sets:
+                            ctx.set(target, value)
+                    else:
+                        cmd.clear()
+                        cmd["sets"] = sets
+                        ctx.set(req, 1 - ctx.get(req))
+                        if cmd.get("result", ("error", "other:not-run", ""))[0] != "ok":
+                            r[how] = cmd.get("result", ("error", "other:not-run", ""))
+                            continue
+                    ctx.set(wrd.addr, tr)
+                    r[how] = ("ok", ctx.get(Value.cast(rowv)), ctx.get(Value.cast(wrd.data)),
+                              [ctx.get(Value.cast(wmem.data[j])) for j in range(WMEM_DEPTH) if j != tr],
+                              [attempt(lambda k=k: ctx.get(rowv[k])) for k in keys])
                 except Exception as e:
                     r[how] = ("error", errkind(e), repr(e)[:160])
             res["scripts"].append(r)
@@ -1223,6 +1264,7 @@ def enum_job(jobs):
                 r["rtlil"] = ("error", errkind(ex), repr(ex)[:160])
         if kind != "e":
             PF = py_enum.Flag("PF", list(members), boundary=getattr(py_enum, kind.upper()))
+            BINOPS = {"and": operator.and_, "or": operator.or_, "xor": operator.xor}
             a, b = Signal(cls, name="a"), Signal(cls, name="b")
             m = Module()
             outs = {}
@@ -1267,6 +1309,19 @@ def enum_job(jobs):
                             row[name] = ("ok", circ, tbv, lifted, oracle(name, x, y))
                         except Exception as ex:
                             row[name] = ("error", errkind(ex), repr(ex)[:120])
+                    # round 4: a plain Python member of the class as ONE operand, in both operand orders
+                    # (`view op member` runs FlagView.__op__, `member op view` runs FlagView.__rop__ after
+                    # Python's Flag.__op__ returned NotImplemented); same oracle as view op view
+                    for name, f in BINOPS.items():
+                        forms = {}
+                        for form, build in [("vm", lambda: f(a, cls(y))), ("mv", lambda: f(cls(x), b))]:
+                            try:
+                                expr = build()
+                                isview = type(expr) is type(a) and expr.shape() is cls
+                                forms[form] = ("ok", ctx.get(Value.cast(expr)), isview)
+                            except Exception as ex:
+                                forms[form] = ("error", errkind(ex), repr(ex)[:120])
+                        row["mixed_" + name] = forms
                     rows.append(row)
             try:
                 sim = Simulator(m)
@@ -1566,6 +1621,26 @@ def zero_init(rng, l, defaults, enums):
     return ("map", tuple((key, zero_value(rng, fs, enums)) for key, fs in chosen), False)
 
 
+R4_SINGLE_WRITES = 24
+
+
+def top_paths(l, enums, limit=60):
+    """the field paths (inner nodes included) whose field ends at the most significant bit of the layout and does not
+    start at bit 0 of it, deepest first"""
+    size = layout_size(l, enums)
+    out = []
+
+    def walk(lay, prefix, base):
+        for key, fs, off, w in fields_of(lay, enums):
+            if w > 0 and base + off + w == size and len(out) < limit:
+                if base + off > 0:
+                    out.append((prefix + (key,), fs))
+                if fs[0] not in ("p", "enum"):
+                    walk(fs, prefix + (key,), base + off)
+    walk(l, (), 0)
+    return out[::-1]
+
+
 LIKE_VARIANTS = ["name", "suffix", "reset_less", "init", "cast", "twice", "attrs"]
 
 
@@ -1650,6 +1725,15 @@ def make_r3_case(rng, entry=None):
             picks = [rng.choice(paths) for _c in range(cnt)] if rng.random() < 0.3 else rng.sample(paths, min(cnt, len(paths)))
             scripts.append({"what": "fields", "raw": rng.getrandbits(size),
                             "steps": [(tuple(p), fs, random_field_value(rng, fs, enums)) for p, fs in picks]})
+        # round 4: single writes of ONE field (the scripts also run on a memory row, see r3_observe): every path whose
+        # field reaches the most significant bit of the layout (last struct field, last array element, widest union member,
+        # nested last sub-fields), then the other paths, at most R4_SINGLE_WRITES per case
+        tops = top_paths(l, enums)
+        rest = [(p, fs) for p, fs in paths if (p, fs) not in tops]
+        rng.shuffle(rest)
+        for p, fs in (tops + rest)[:R4_SINGLE_WRITES]:
+            scripts.append({"what": "fields", "single": True, "reaches_top": (p, fs) in tops, "raw": rng.getrandbits(size) | 1,
+                            "steps": [(tuple(p), fs, random_field_value(rng, fs, enums))]})
     # --- memories with rows of this shape
     mems = []
     if entry is not None and size > 0:
@@ -2252,7 +2336,13 @@ def judge_seq(chk, sc, obs, resps1, resps2):
         J.differ("simulation of the registers of a construction sequence", sc, obs["run"][1], "ok", "ok", dict(base_ex, detail=obs["run"][2]))
 
 
-def judge_r3(chk, case, obs, resps1, resps2, chain):
+def r4_read_requests(case, chain):
+    """the fields of the bits every script leaves (the Spec's bits; the model's are compared with them by the judge)"""
+    bits = [chain[si][1] for si in range(len(case["scripts"]))]
+    return [f"(read {ser_layout(case['layout'], case['enums'])} " + " ".join(str(b) for b in bits) + ")"] if bits else []
+
+
+def judge_r3(chk, case, obs, resps1, resps2, chain, chain_reads=None):
     """copies made with Signal.like have the original's initial value (as a constant, at time 0, after a reset, field by
     field); several partial writes before the next delta cycle all land; memory rows hold the constant of their
     initialiser (the declared defaults for rows without one)"""
@@ -2410,6 +2500,35 @@ def judge_r3(chk, case, obs, resps1, resps2, chain):
                 impl = t[1] if t[0] == "ok" else "err:" + t[1]
                 cls = [F11] if (t[0] != "ok" and t[1] == "TypeError" and sub_bare_union) else []
                 J.cmp(f"{what} {hname}, then read the signal", case, impl, m_, s_, dict(ex, detail=t[2] if t[0] != "ok" else None), cls)
+            # round 4: the same writes through the view of a memory row (mem.data[i]) that held the same bits
+            if obs.get("wmem", ("none",))[0] == "error":
+                if si == 0:
+                    J.differ("memory with rows of a layout shape (written by the scripts): construction raises", case,
+                             "err:" + obs["wmem"][1], "ok", "ok", dict(base_ex, detail=obs["wmem"][2]))
+                continue
+            single = bool(s.get("single"))
+            if single:
+                chk.hist("r4_row_single_write_field", s["steps"][0][1][0] + (" reaching the top bit of the row" if s["reaches_top"] else ""))
+                chk.hist("r4_row_single_write_depth", len(s["steps"][0][0]))
+            other = ~s["raw"] & mask
+            mwhat = ("single field write" if single else what.split(":")[0]) + " through the view of a memory row"
+            for how, hname in (("mtb", "from a testbench"), ("mproc", "from a process")):
+                chk.count(1)
+                chk.hist("r4_row_script_runs", ("single " if single else ("slice " if s["what"] == "slice" else "fields ")) + hname)
+                t = r.get(how, ("error", "other:missing", ""))
+                exm = dict(ex, row=si % WMEM_DEPTH, other_rows_hold=other, detail=t[2] if t[0] != "ok" else None)
+                if t[0] != "ok":
+                    cls = [F11] if (t[1] == "TypeError" and sub_bare_union) else []
+                    J.differ(f"{mwhat} {hname}", case, "err:" + t[1], m_, s_, exm, cls)
+                    continue
+                _ok, whole, port, others, fields = t
+                J.cmp(f"{mwhat} {hname}, then read the row", case, whole, m_, s_, exm)
+                J.cmp(f"{mwhat} {hname}, then read the row through a comb read port", case, port, m_, s_, exm)
+                J.cmp(f"{mwhat} {hname}, then read the other rows", case, list(others), [other] * (WMEM_DEPTH - 1), [other] * (WMEM_DEPTH - 1), exm)
+                rd = chain_reads.get(si) if chain_reads else None
+                if rd is not None:
+                    sp = lifted_tokens(rd["sp"])
+                    J.cmp(f"{mwhat} {hname}, then read the fields of the row", case, list(fields), lifted_tokens(rd["mv"]), sp, exm, fcls(fields, sp))
     # --- memories
     pos = 1 + len(case["origs"])
     for mi, (md, mo) in enumerate(zip(case["mems"], obs["mems"])):
@@ -2542,6 +2661,18 @@ def judge_enum(chk, job, r, resps):
             J.cmp(f"FlagView {name} (testbench)", fake_case, tbv, m_, pyv, ex, cls)
             if orc[0] == "ok" and lifted != ("ok", pyv) and not cls:
                 J.differ(f"ctx.get(FlagView {name})", fake_case, lifted, ("ok", m_), ("ok", pyv), ex)
+            # round 4: the same operator with a plain member of the class on the right / on the left
+            for form, label in (("vm", "view {} member"), ("mv", "member {} view")) if name != "inv" else ():
+                fg = row.get("mixed_" + name, {}).get(form)
+                chk.count(1)
+                chk.hist("flag_operand_forms", f"{label.format(name)}:{'shared' if x & y else 'disjoint'}")
+                if fg is None or fg[0] != "ok":
+                    J.differ(f"FlagView {label.format(name)}", fake_case, "err:" + (fg[1] if fg else "missing"), m_, pyv,
+                             dict(ex, detail=fg[2] if fg else ""))
+                    continue
+                J.cmp(f"FlagView {label.format(name)} (testbench)", fake_case, fg[1], m_, pyv, ex)
+                if not fg[2]:
+                    J.differ(f"FlagView {label.format(name)} result is a FlagView of the class", fake_case, False, True, True, ex)
     if r["mixed"][0] != "ok":
         J.differ("FlagView op enum member", fake_case, r["mixed"][1], "ok", "ok", {"enum": E, "detail": r["mixed"][2]})
     if "rtlil" in r and (r["rtlil"][0] != "ok" or not r["rtlil"][1]):
@@ -2670,6 +2801,17 @@ def run(chk):
         if bad:
             raise common.Infra(f"driver rejected a request: {bad[0][0][:300]} -> {bad[0][1]}")
         r3_chains = r3_chain(chk, r3_cases)
+        # round 4: the fields of the bits every script leaves (read back from the written memory row)
+        r4_reqs, r4_idx = [], []
+        for ci, c in enumerate(r3_cases):
+            q = r4_read_requests(c, {si: r3_chains[(ci, si)] for si in range(len(c["scripts"]))})
+            r4_idx.append(len(r4_reqs) if q else None)
+            r4_reqs += q
+        r4_resps = chk.driver.ask(r4_reqs)
+        bad = [(q, r) for q, r in zip(r4_reqs, r4_resps) if r.startswith("error")]
+        if bad:
+            raise common.Infra(f"driver rejected a request: {bad[0][0][:300]} -> {bad[0][1]}")
+        r4_reads = [None if i is None else {si: common.kv(part) for si, part in enumerate(r4_resps[i].split(" ; "))} for i in r4_idx]
         obs = [o for f in fut_l for o in f.result()]
         robs = [o for f in fut_r for o in f.result()]
         eobs = [o for f in fut_e for o in f.result()]
@@ -2684,7 +2826,8 @@ def run(chk):
     for sc, o, (a, b), (a2, b2) in zip(seq_cases, sobs, sspans, sspans2):
         judge_seq(chk, sc, o, resps[a:b], resps2[a2:b2])
     for ci, (c, o, (a, b), (a2, b2)) in enumerate(zip(r3_cases, robs, r3_spans, r3_spans2)):
-        judge_r3(chk, c, o, r3_resps[a:b], r3_resps2[a2:b2], {si: r3_chains[(ci, si)] for si in range(len(c["scripts"]))})
+        judge_r3(chk, c, o, r3_resps[a:b], r3_resps2[a2:b2], {si: r3_chains[(ci, si)] for si in range(len(c["scripts"]))},
+                 r4_reads[ci])
     for c in r3_cases[len(R3_CORPUS):len(R3_CORPUS) + 2]:
         chk.sample({"round3_shape": ser_layout(c["layout"], c["enums"]), "defaults": {k: ser_init(v) for k, v in c["defaults"]},
                     "originals": [ser_init(i) for i in c["origs"]], "copies": [[v[0] for v in vs] for vs in c["likes"]],
@@ -2737,7 +2880,15 @@ def run(chk):
                        "and from an add_process process (no delta cycle between the writes), against the chain of the model's single field "
                        "writes; memories (lib.memory.Memory) whose rows have the shape, with an empty / partial / full initialiser (also "
                        "through the init setter): mem.init, ctx.get(mem.data[i]) and its fields, a comb read port, against Layout.const of "
-                       "the row's initialiser (the declared defaults for missing rows)")
+                       "the row's initialiser (the declared defaults for missing rows). "
+                       "Round-4 additions: every script above plus, per shape, up to 24 scripts that write ONE field (every path whose field "
+                       "reaches the most significant bit of the layout - last struct field, last array element, widest union member, nested "
+                       "last sub-fields - then the other paths) are also applied through the view of a row of a 3-row memory "
+                       "(ctx.set(mem.data[i].f, v) from a testbench and from a process) whose target row holds the script's bits (bit 0 set for "
+                       "single writes) and whose other rows hold the complement; afterwards the row (mem.data[i], comb read port, every "
+                       "top-level field) is compared with the model's chain of single field writes and the other rows with what they held. "
+                       "Flag stream: & | ^ for every pair also as `view op member` and `member op view` (a plain Python member of the class, "
+                       "reflected operator), value and result type, against the same enum.Flag oracle")
     chk.assumptions += [
         "Flag classes have unsigned shapes and every member value fits the declared shape (no truncation warning)",
         "Flag classes with multi-bit members over bits that have no single-bit member are exercised in the flag stream on member "
